@@ -251,20 +251,117 @@ func (c *Canon) boolTerm(v ssa.Value) (string, bool) {
 	if len(paths) == 0 {
 		return "false", true
 	}
-	set := map[string]bool{}
+	var alts [][]string
 	for _, p := range paths {
-		k := pathKey(p)
-		if k == "" {
+		q := simplifyAtoms(append([]string{}, p...))
+		if len(q) == 0 {
 			return "true", true
 		}
-		set[k] = true
+		alts = append(alts, q)
 	}
+	return renderDNF(simplifyDNF(alts)), true
+}
+
+// simplifyDNF normalises a disjunction of conjunctions: duplicates and absorbed alternatives are
+// dropped (X || X&&Y = X) and a literal whose negation guards a weaker alternative is dropped
+// (x&&S || !x&&S&&T = x&&S || S&&T), so that the paths of `a || b` as a value ({a}, {!a, b}), the
+// alternatives of the same chain written as branches ({a}, {b}), and `!(!a && !b)` are one form.
+func simplifyDNF(alts [][]string) [][]string {
+	has := func(set []string, a string) bool {
+		for _, x := range set {
+			if x == a {
+				return true
+			}
+		}
+		return false
+	}
+	subsetExcept := func(x []string, skipX string, y []string, skipY string) bool {
+		for _, a := range x {
+			if a == skipX {
+				continue
+			}
+			if a == skipY || !has(y, a) {
+				return false
+			}
+		}
+		return true
+	}
+	for changed := true; changed; {
+		changed = false
+	outer:
+		for j := range alts {
+			for _, lit := range alts[j] {
+				neg, ok := negAtomOf(lit)
+				if !ok {
+					continue
+				}
+				for i := range alts {
+					if i == j || !has(alts[i], neg) {
+						continue
+					}
+					if subsetExcept(alts[i], neg, alts[j], lit) {
+						var ny []string
+						for _, a := range alts[j] {
+							if a != lit {
+								ny = append(ny, a)
+							}
+						}
+						alts[j] = ny
+						changed = true
+						continue outer
+					}
+				}
+			}
+		}
+	}
+	// absorption and duplicates
+	var out [][]string
+	for j := range alts {
+		drop := false
+		for i := range alts {
+			if i == j {
+				continue
+			}
+			if subsetExcept(alts[i], "", alts[j], "") && (len(alts[i]) < len(alts[j]) || i < j) {
+				drop = true
+				break
+			}
+		}
+		if !drop {
+			out = append(out, alts[j])
+		}
+	}
+	return out
+}
+
+func renderDNF(alts [][]string) string {
+	if len(alts) == 0 {
+		return "false"
+	}
+	single := true
 	var ks []string
-	for k := range set {
-		ks = append(ks, k)
+	for _, a := range alts {
+		if len(a) == 0 {
+			return "true"
+		}
+		if len(a) != 1 {
+			single = false
+		}
+		q := append([]string{}, a...)
+		sort.Strings(q)
+		ks = append(ks, strings.Join(q, " && "))
 	}
 	sort.Strings(ks)
-	return "[" + strings.Join(ks, " || ") + "]", true
+	if len(ks) == 1 {
+		if single {
+			return ks[0]
+		}
+		return "[" + ks[0] + "]"
+	}
+	if single {
+		return "(" + strings.Join(ks, " || ") + ")"
+	}
+	return "[" + strings.Join(ks, " || ") + "]"
 }
 
 // selPhi renders a phi that is not loop-carried as a selection: the distinct incoming values, each
@@ -292,7 +389,7 @@ func (c *Canon) selPhi(v *ssa.Phi, d int) (string, bool) {
 	for _, ce := range f.context(idom, rej) {
 		base[[2]int{ce.blk.Index, ce.succ}] = true
 	}
-	groups := map[string]map[string]bool{}
+	groups := map[string][][]string{}
 	rxs := c.rotExits(v)
 edges:
 	for i, e := range v.Edges {
@@ -332,15 +429,12 @@ edges:
 				}
 			}
 		}
-		if groups[val] == nil {
-			groups[val] = map[string]bool{}
-		}
 		for _, alt := range alts {
-			k := pathKey(append(append([]string{}, atoms...), alt...))
-			if k == "" {
+			q := simplifyAtoms(append(append([]string{}, atoms...), alt...))
+			if len(q) == 0 {
 				return "", false // arrives unconditionally: not a selection
 			}
-			groups[val][k] = true
+			groups[val] = append(groups[val], q)
 		}
 	}
 	if len(groups) < 2 || len(groups) > 4 {
@@ -353,19 +447,11 @@ edges:
 	}
 	var gs []grp
 	for val, ks := range groups {
-		var xs []string
-		for k := range ks {
-			xs = append(xs, k)
-		}
-		sort.Strings(xs)
+		xs := simplifyDNF(ks)
 		if len(xs) > maxCondPaths {
 			return "", false
 		}
-		cond := strings.Join(xs, " || ")
-		if len(xs) > 1 || strings.Contains(cond, " && ") {
-			cond = "[" + cond + "]"
-		}
-		gs = append(gs, grp{val, len(xs), cond})
+		gs = append(gs, grp{val, len(xs), renderDNF(xs)})
 	}
 	sort.Slice(gs, func(i, j int) bool {
 		if gs[i].n != gs[j].n {
